@@ -17,10 +17,15 @@ MANIFEST = {
              "(class for every state incl. target-only ones, and for nothing else), C10_context_decls (every guard, (action,event) signature, hook, event class with members, Is/Trigger method, enum entry, base handler and state class a row needs is declared exactly once, as (kind, name, params) triples of Model/Decls.v over Gen/DeclTmpl.v). Tie: the PER_GUARDTRANSITION shape and the nesting "
              "around it are regenerated from TEMPLATEInternals.cs into Gen/CsTmpl.v; the real <Name>Internals.cs is tokenised per class / per Trigger<Event> override "
              "and compared with CsSM.cs_handler, and independently executed by a small Python token interpreter against a Python reading of the property; "
-             "context/interface declarations extracted by regex and counted."),
+             "context/interface declarations extracted by regex and counted. ENGINE BRIDGE (C10_handlers_engine, C10_handler_reads, "
+             "C10_block_is_shipped): for every table with well-formed rows the file the engine model's pipeline (C16) writes from the transition "
+             "block of the SHIPPED TEMPLATEInternals.cs (Model/CsRender.cs_block16: source-derived lines read into the template syntax, checked "
+             "to render back) is one class text per cs_classes, one Trigger<e> override per cs_handlers, and the PER_GUARDTRANSITION lines of "
+             "that override read one by one (without indentation) as the C# statements of the tokens cs_handler t s e; that text is found "
+             "verbatim in the real <Name>Internals.cs on every case."),
     "note": ("No C# compiler: the statements are about the emitted token structure and the model's reading of Exit<S>()/Enter<T>() (checked textually by the translator), "
              "not about csc accepting the files. Context declarations are proved for names, parameter lists and multiplicities; the triples are read out of the real files by regex and compared with Decls.decls_file. "
-             "The class/handler nesting (PER_STATETRANSITION / PER_EVENTTRANSITION) is modelled in closed form, its template shape is checked by the translator."),
+             "The class/handler nesting (PER_STATETRANSITION / PER_EVENTTRANSITION) is now part of the engine bridge (cs_class_text / cs_method_text are the reference expansion of the shipped block, C10_handlers_engine); translator/cstmpl.py's classification of the PER_GUARDTRANSITION lines is cross-checked by C10_handler_reads (a wrong Gen/CsTmpl.v makes that proof fail)."),
 }
 RULE = ("random well-formed tables (as C08) incl. colliding signature concatenations; C# primitive member types with (trailing) defaults; StateMachineThread 0/1/absent; "
         "every listed (state,event) handler executed under random guard bits. non-trivial = some handler has more than one row or a row without guard/target; "
@@ -234,6 +239,13 @@ def one_case(ctx, table, spec, rng_bits):
             for e, toks in hs:
                 if ctx.km.call("cs_parses", toks) != b"1":
                     ctx.tie_broken("CsSM.parse_braces rejects a handler although C10_handlers is proved", {"table": table, "state": c, "event": e})
+        # the text: the state classes of the real <Name>Internals.cs are the reference expansion (ref16 = the engine, C16) of the
+        # shipped transition block in the Coq template syntax (Model/CsRender.cs_block16), whose handler lines read as cs_handler
+        ref = ctx.km.call("cs.block_ref", [list(r) for r in table], [], [], []).decode("utf-8", "surrogateescape")
+        ctx.count("state_classes_text_compared")
+        if ref == "" or ref not in files["%sInternals.cs" % NAME]:
+            ctx.tie_broken("the state classes of the generated Internals.cs differ from ref16 of the shipped block (Model/CsRender.cs_block16)",
+                           {"table": table, "ref16": ref[:1500]})
     st = smlib.names(table)[0]
     got_classes = [c for c, _h, _en, _ex in classes]
     if sorted(got_classes) != sorted(st):
